@@ -43,7 +43,7 @@ ASSUMPTIONS = [
 REQUIRED_COUNTERS = ['scenarios_run', 'streams_judged', 'device_wrte_judged',
                      'acks_judged', 'host_chunks_judged', 'schedules_held',
                      'fault_runs', 'outstanding_checked', 'writes_refused_or_failed',
-                     'close_races']
+                     'close_races', 'slow_device_writes', 'slow_writes_timed_out']
 EXHAUSTIVE = {'quick': False, 'thorough': False}
 PLAN = {
     'quick': {'workers': 16, 'budget_s': 60, 'sampled_per_worker': 40,
@@ -95,6 +95,10 @@ def enumerated(tier):
   b = ['B0', 'B1', 'Bc']
   for order in _merges(a, b):
     yield {'k': 'device', 'order': order}
+  # a slow but alive device and a write of several chunks
+  for chunks in (1, 2, 3, 4, 6):
+    for frac in (0.1, 0.4, 0.6, 0.9):
+      yield {'k': 'slowdev', 'chunks': chunks, 'frac': frac}
   # a local close() racing with the device's CLSE for the same stream
   for idx in range(80):
     yield {'k': 'close', 'idx': idx}
@@ -558,6 +562,74 @@ def run_fault(case):
   return {'sig': case, 'violations': viol[:4], 'counters': c}
 
 
+def run_slowdev(case):
+  """A device that is slow but alive: it acknowledges every WRTE, each after
+  0.6 x the write's time-out (logical time: the clock that openhtf.util.timeouts
+  reads is advanced by the device).  A host write of several chunks has then
+  used up its time-out before the last chunk: it must raise, not report
+  success long after its time-out."""
+  import time as real_time
+  from openhtf.util import timeouts
+  ap = _S['ap']
+  T = 2.0
+
+  class Clock:
+    offset = 0.0
+
+    def time(self):
+      return real_time.time() + self.offset
+
+    def __getattr__(self, name):
+      return getattr(real_time, name)
+
+  clock = Clock()
+  nchunks = case['chunks']
+  data = 'x' * (MAXDATA * (nchunks - 1) + 1)
+  dev = Device({'svc:0': []}, {'svc:0': 10 ** 9})
+  conn = ap.AdbConnection.connect(dev.t, timeout_ms=TIMEOUT_MS)
+  st = conn.open_stream('svc:0', timeout_ms=TIMEOUT_MS)
+  real_on_host = dev.t.on_host_message
+
+  def slow_on_host(msg):
+    if msg[2] == 'WRTE':
+      clock.offset += case['frac'] * T      # the device takes its time
+    real_on_host(msg)
+
+  dev.t.on_host_message = slow_on_host
+  old = timeouts.time
+  timeouts.time = clock
+  t0 = clock.time()
+  try:
+    try:
+      st.write(data, timeout_ms=int(T * 1000))
+      result = 'ok'
+    except Exception as e:  # pylint: disable=broad-except
+      result = type(e).__name__
+    elapsed = clock.time() - t0
+  finally:
+    timeouts.time = old
+  try:
+    conn.close()
+  except Exception:  # pylint: disable=broad-except
+    pass
+  sd = next(iter(dev.streams.values()))
+  viol = []
+  ctx = {'chunks': nchunks, 'ack_delay_fraction': case['frac'], 'result': result,
+         'logical_elapsed_s': round(elapsed, 3), 'timeout_s': T,
+         'chunks_seen_by_device': len(sd['chunks'])}
+  if result == 'ok' and elapsed > 1.5 * T:
+    viol.append({'mechanism': 'write-succeeded-long-after-its-timeout',
+                 'detail': ctx})
+  if result == 'ok' and ''.join(sd['got']) != data:
+    viol.append({'mechanism': 'host-bytes-differ-at-device', 'detail': ctx})
+  for p in dev.problems:
+    viol.append({'mechanism': 'device-saw:' + p[0].replace(' ', '-'),
+                 'detail': dict(ctx, problem=p)})
+  c = {'slow_device_writes': 1, 'scenarios_run': 1,
+       'slow_writes_timed_out': 0 if result == 'ok' else 1}
+  return {'sig': case, 'violations': viol, 'counters': c}
+
+
 _CLOSE_POINTS = []
 
 
@@ -651,4 +723,5 @@ def run_close(case):
 
 def run_case(case):
   return {'sched': run_sched, 'stress': run_stress, 'device': run_device,
-          'fault': run_fault, 'close': run_close}[case['k']](case)
+          'fault': run_fault, 'close': run_close,
+          'slowdev': run_slowdev}[case['k']](case)
